@@ -1,3 +1,4 @@
+\* Measured: 9 configurations (<= 6 units): 117 127 distinct states, depth 2, 20-45 s on 4 workers.
 \* the repaired design: every property holds
 CONSTANTS
   Configs <- SmallConfigs
@@ -7,7 +8,8 @@ CONSTANTS
   FixNonce = TRUE
   FixUnpad = TRUE
   FixProto = TRUE
+  FixShardLens = TRUE
 INIT Init
 NEXT Next
-INVARIANTS Reconstructs CorruptHarmless NeverFails BadPaddingRejected HonestAccepted CorruptRejected DuplicateRejected Pipeline PaddingOK ThresholdsOK
+INVARIANTS Reconstructs CorruptHarmless NeverFails MalformedWireRejected BadPaddingRejected HonestAccepted CorruptRejected DuplicateRejected Pipeline PaddingOK ThresholdsOK
 CHECK_DEADLOCK FALSE
